@@ -115,6 +115,13 @@ def structures(tier, seed):
         out.append(mk(None, {("X", 1): lk, ("Y", 0): lk}, ("X", "Y"), {"X": "extend", "Y": "fill"}))
         out.append(mk("X", {("X", 0): lk}, ("X", "Y"), {"X": "fill", "Y": "extend"}))
         out.append(mk("Y", {("Y", 1): lk}, ("X", "Y"), {"X": "periodic", "Y": "fill"}))
+    # (2b) vector components with BOTH slots of an axis linked (different kinds on the two sides)
+    for kind in ("X", "Y"):
+        for a in ("X", "Y"):
+            for lkL, lkR in itertools.product(LINK_KINDS, repeat=2):
+                if tier == "quick" and (lkL[1] and lkR[1]):
+                    continue
+                out.append(mk(kind, {(a, 0): lkL, (a, 1): lkR}, (a,), rules_ff))
     # (3) extra dimensions before / after the face dimension
     for extra in ("before", "after", "both"):
         out.append(mk(None, {("X", 1): ("swap", False)}, ("X",), rules_ff, extra))
